@@ -187,6 +187,7 @@ func c04(c *Ctx) {
 	c.RunCases(cases)
 	c04Sessions(c)
 	c04Churn(c)
+	c04RemoveDuringDispatch(c)
 }
 
 func orDash(s string) string {
@@ -476,6 +477,81 @@ func c04Sessions(c *Ctx) {
 			if get(r.id) > expect[r.id] {
 				c.SpecFail("spec", "handler session: "+strings.Join(descs, "; "), "", fmt.Sprintf("%s ran %d times, Spec says %d", r.id, get(r.id), expect[r.id]), map[string]interface{}{"op": "handler-session", "steps": descs})
 			}
+		}
+	}
+}
+
+// c04RemoveDuringDispatch: a removal that lands WHILE the dispatcher is still starting the handlers of an event must
+// not disturb that event - every handler registered when the event was dispatched runs exactly once for it. The first
+// handler of a long list removes, as soon as it is started, a handler registered right behind it; the dispatcher is
+// then still starting the other handlers (some dozens of them), so the removal falls inside the dispatch loop on
+// another processor. One victim per event, each event checked.
+func c04RemoveDuringDispatch(c *Ctx) {
+	for s := 0; s < c.Pick(2, 10); s++ {
+		events, stable := 50, 24+c.R.N(16)
+		c.Journal(fmt.Sprintf("C04 removal during dispatch: %d events, %d stable handlers (seed %d)", events, stable, c.Seed))
+		sess, err := newSession(nil, nil)
+		if err != nil {
+			c.Res.Inconclusive++
+			continue
+		}
+		conn := sess.conn
+		counts := make([]int64, 1+events+stable) // trigger, victims, stable
+		var cur int64 = -1
+		victims := make([]client.Remover, events)
+		conn.HandleFunc("NOTICE", func(*client.Conn, *client.Line) {
+			atomic.AddInt64(&counts[0], 1)
+			if k := atomic.LoadInt64(&cur); k >= 0 && int(k) < events {
+				victims[k].Remove()
+			}
+		})
+		for k := 0; k < events; k++ {
+			k := k
+			victims[k] = conn.HandleFunc("notice", func(*client.Conn, *client.Line) { atomic.AddInt64(&counts[1+k], 1) })
+		}
+		for j := 0; j < stable; j++ {
+			j := j
+			conn.HandleFunc("Notice", func(*client.Conn, *client.Line) { atomic.AddInt64(&counts[1+events+j], 1) })
+		}
+		bad := ""
+		for k := 0; k < events && bad == ""; k++ {
+			atomic.StoreInt64(&cur, int64(k))
+			sess.srv.SendLine(fmt.Sprintf(":n!u@h NOTICE me :ev%d", k))
+			if !sess.sync(5 * time.Second) {
+				c.Res.Inconclusive++
+				break
+			}
+			// after event k: trigger and every stable handler ran k+1 times; victim j ran min(j,k)+1 times
+			var diffs []string
+			for i := range counts {
+				want := int64(k + 1)
+				if i >= 1 && i <= events && i-1 < k {
+					want = int64(i)
+				}
+				if got := atomic.LoadInt64(&counts[i]); got != want {
+					name := "the removing handler"
+					if i >= 1 && i <= events {
+						name = fmt.Sprintf("victim %d (removed during event %d)", i-1, i-1)
+					} else if i > events {
+						name = fmt.Sprintf("stable handler %d of %d", i-1-events, stable)
+					}
+					diffs = append(diffs, fmt.Sprintf("%s ran %d times, Spec says %d", name, got, want))
+				}
+			}
+			if len(diffs) > 0 {
+				if len(diffs) > 6 {
+					diffs = append(diffs[:6], fmt.Sprintf("... %d more", len(diffs)-6))
+				}
+				bad = fmt.Sprintf("after event %d: %s", k, strings.Join(diffs, " | "))
+			}
+			c.Res.Evaluations++
+		}
+		sess.close()
+		c.Res.Traces++
+		c.Dist("remove-during-dispatch")
+		if bad != "" {
+			desc := fmt.Sprintf("1 handler, then %d one-shot victims, then %d more handlers under one event name; during event k the first handler removes victim k while the others are still being started", events, stable)
+			c.SpecFail("spec", desc, "", bad, map[string]interface{}{"op": "remove-during-dispatch", "events": events, "stable": stable})
 		}
 	}
 }
